@@ -202,6 +202,25 @@ PROPS = {
                     "sequences enumerated exhaustively. Exploration only."),
         level_note="trusts only vector equality and the model bookkeeping in prop_C12.cpp, g++, rapidcheck",
     ),
+    "C06": dict(
+        bins={"main": dict(tc="gcc", src="prop_C06.cpp", variants=["plain"])},
+        parts=[dict(name="poly", workers={Q: 16, T: 16}, cases={Q: 1200, T: 20000})],
+        rule=("cases = 1-3 disjoint simple polygons, each a star-shaped ring (4-12 vertices, stratified angles) with "
+              "recursively nested holes and islands scaled into the measured inradius, either orientation convention, scales "
+              "100..1e7, verified exactly to be simple with turning angles >= 10 degrees from reversal; |delta| from the classes "
+              "<0.5, 0.5-5, 5-0.3R, 0.3R-2R; miter limit 0-5, arc tolerance 0 or 0.05-3, ReverseSolution; each case is offset "
+              "with 4 join types x both signs of delta and judged at ~300-800 integer sample points (jittered grid + probes at "
+              "distance |delta|*factor +- (tol+1..4) from edges and vertices) by signed distance to the input region: "
+              "Round: covered iff d <= delta-tol / uncovered iff d >= delta+tol; Miter/Square: between the round results for "
+              "|delta| and k|delta|; Bevel: between the edge-normal sweep and the round result; coverage value +1/-1 by "
+              "orientation and ReverseSolution; |delta|<0.5 leaves the region unchanged. Non-trivial = polygon with a concave "
+              "vertex and both covered and uncovered judged samples"),
+        assumptions=["samples are integer points; points inside the tolerance band arc_tol + 2 + 0.001|delta| are not judged",
+                     "a mismatch that disappears for all of delta +-0.37, +-0.73 is classified as KF-ENG-a (sub-grid near-touch artefact of the clean-up union)"],
+        technique="property-based testing (rapidcheck): signed-distance reference model of the offset region, sampled",
+        level_text="Generated search against an independent signed-distance model with per-join-type inner and outer bounds. Exploration only.",
+        level_note="trusts the distance/winding oracle (oracle.hpp, offset_oracle.hpp), g++, rapidcheck",
+    ),
     "C02": dict(
         bins={"main": dict(tc="gcc", src="prop_C02.cpp", variants=["plain"])},
         parts=[
